@@ -78,6 +78,12 @@ class QueryPlanner:
                         predictor['integration_name'] = integration_name
                     name = f'{integration_name}.{name}'.lower()
                     _projects.add(integration_name.lower())
+                else:
+                    # the key is 'project.name': the project is the part in front of the name
+                    integration_name = name.rsplit('.', 1)[0]
+                    predictor['integration_name'] = integration_name
+                    name = name.lower()
+                    _projects.add(integration_name.lower())
 
                 self.predictor_info[name] = predictor
 
